@@ -3,6 +3,22 @@
 TECH = 'TLA+ specification model-checked by TLC; '
 
 CHECKS = {
+    'C16': dict(
+        text='FxPointing.tla transcribes get_rotation_matrix entry by entry over exact (cos, sin) pairs (quarter turns and '
+             'Pythagorean angles) and TLC checks it equals Rz(phi) Ry(theta) Rz(psi), is orthogonal with determinant one '
+             '(ASSUME, all 12 Euler triples); MC_Pointing rotates exact unit detector directions one sample per step (the '
+             'loop of the einsum) over 6 layouts (1-2 detectors x 1-2 directions) and every sequence of <= 2 (quick) / 3 '
+             '(thorough) pointings, with unit-norm and count invariants, and emits the exact rotated directions and the exact '
+             '(cos 2psi, sin 2psi). Replay on create_projection_operator / create_acquisition for the four Stokes kinds and '
+             'nside 1,2,4(,8): every TOD entry of the projection against sky[pix(R_t d)] with (Q,U) rotated by 2psi_t, every '
+             'entry of the SAT acquisition against (I + Q cos 2psi - U sin 2psi)/2, before and after reduce(), and P^T P '
+             '(unreduced and reduced, and as_matrix for nside 1) against the diagonal of hit counts per Stokes component; '
+             '64-bit and 32-bit modes.',
+        note='The pixel containing an exact direction is taken from healpy.vec2pix (C17 binds furax/jax_healpy to healpy); '
+             'entries whose direction is within 1e-6 (x64) / 2e-3 (x32) of a pixel border are dropped and counted; pointings '
+             'from the exact family only; create_random_sampling is not exercised.',
+        technique=TECH + 'exact rotated directions replayed on the real projection / acquisition operators against the explicit pointing model',
+        design_ref='DESIGN.md §4 C16'),
     'C12': dict(
         text='FxIndex.tla states NumPy indexing x[items] as an exact selection map (output shape and, for every output position, '
              'the input position) for tuples of integers, slices (steps 1, 2, -1, None bounds), one ellipsis and one array-like item '
